@@ -47,8 +47,8 @@ package ss2022
 //@   loop 0 invariant 0 <= rangeint_iter && rangeint_iter < clearBlockCount
 //@   loop 0 invariant lastBlockIndex & f.ringBlockIndexMask == (old(f.last) / 64 + uint64(rangeint_iter)) & f.ringBlockIndexMask
 //@   loop 0 invariant forall j uint64 :: j < uint64(len(f.ring)) ==> f.ring[j] == (((j - old(f.last) / 64 - 1) & f.ringBlockIndexMask) < uint64(rangeint_iter) ? 0 : old(f.ring[j]))
-//@   loop 0 exit forall c uint64 :: c > old(f.last) && c <= counter && c / 64 != old(f.last) / 64 ==> f.ring[(c / 64) & f.ringBlockIndexMask] == 0
-//@   loop 0 exit forall c uint64 :: c <= old(f.last) && counter - c < f.size ==> f.ring[(c / 64) & f.ringBlockIndexMask] == old(f.ring[(c / 64) & f.ringBlockIndexMask])
+//@   loop 0 exit forall c uint64 :: {hint(swfClearedArith(old(f.last), counter, c, uint64(len(f.ring)), f.size))} c > old(f.last) && c <= counter && c / 64 != old(f.last) / 64 ==> f.ring[(c / 64) & f.ringBlockIndexMask] == 0
+//@   loop 0 exit forall c uint64 :: {hint(swfKeptArith(old(f.last), counter, c, uint64(len(f.ring)), f.size))} c <= old(f.last) && counter - c < f.size ==> f.ring[(c / 64) & f.ringBlockIndexMask] == old(f.ring[(c / 64) & f.ringBlockIndexMask])
 //@   loop 0 exit forall j uint64 :: j < uint64(len(f.ring)) ==> f.ring[j] == old(f.ring[j]) || f.ring[j] == 0
 
 //@ func (*SlidingWindowFilter).Add
@@ -66,8 +66,8 @@ package ss2022
 //@   loop 0 invariant 0 <= rangeint_iter && rangeint_iter < clearBlockCount
 //@   loop 0 invariant lastBlockIndex & f.ringBlockIndexMask == (old(f.last) / 64 + uint64(rangeint_iter)) & f.ringBlockIndexMask
 //@   loop 0 invariant forall j uint64 :: j < uint64(len(f.ring)) ==> f.ring[j] == (((j - old(f.last) / 64 - 1) & f.ringBlockIndexMask) < uint64(rangeint_iter) ? 0 : old(f.ring[j]))
-//@   loop 0 exit forall c uint64 :: c > old(f.last) && c <= counter && c / 64 != old(f.last) / 64 ==> f.ring[(c / 64) & f.ringBlockIndexMask] == 0
-//@   loop 0 exit forall c uint64 :: c <= old(f.last) && counter - c < f.size ==> f.ring[(c / 64) & f.ringBlockIndexMask] == old(f.ring[(c / 64) & f.ringBlockIndexMask])
+//@   loop 0 exit forall c uint64 :: {hint(swfClearedArith(old(f.last), counter, c, uint64(len(f.ring)), f.size))} c > old(f.last) && c <= counter && c / 64 != old(f.last) / 64 ==> f.ring[(c / 64) & f.ringBlockIndexMask] == 0
+//@   loop 0 exit forall c uint64 :: {hint(swfKeptArith(old(f.last), counter, c, uint64(len(f.ring)), f.size))} c <= old(f.last) && counter - c < f.size ==> f.ring[(c / 64) & f.ringBlockIndexMask] == old(f.ring[(c / 64) & f.ringBlockIndexMask])
 //@   loop 0 exit forall j uint64 :: j < uint64(len(f.ring)) ==> f.ring[j] == old(f.ring[j]) || f.ring[j] == 0
 
 //@ lemma swfClearedArith(last uint64, counter uint64, c uint64, n uint64, size uint64)
